@@ -487,3 +487,90 @@ Section World.
     Qed.
   End Step.
 End World.
+
+(* ------------------------------------------------------------------ the two worlds *)
+Lemma settle_now_with_mask C M' r k : settle_now (with_mask C M') r k = settle_now C r k.
+Proof. reflexivity. Qed.
+
+Lemma wds_kwt M M' k k' : kwt M M' k k' -> wds k' = wds k.
+Proof.
+  intros T. unfold wds. rewrite (kwt_watches _ _ _ _ T), map_map. apply map_ext. intros w. reflexivity.
+Qed.
+
+Lemma kwt_drained M M' k k' : kwt M M' k k' -> kwt M M' (kdrained k) (kdrained k').
+Proof. intros [a b c d]. constructor; assumption. Qed.
+
+Section Two.
+  Variable F : option (list evbase).
+  Variable C : cfg.
+  Let rec := c_recursive C.
+  Let M' := kmask F rec.
+  Let C' := with_mask C M'.
+  Hypothesis HM : c_mask C = WATCHDOG_ALL.
+  Hypothesis Hvis : visible F rec.
+
+  Let kp := fun x : raw => kkeep M' (r_mask x).
+
+  (* settling twins gives twins *)
+  Lemma settle_now_twin r k k' : kwt WATCHDOG_ALL M' k k' ->
+    fst (settle_now C r k) = fst (settle_now C' r k') /\
+    kwt WATCHDOG_ALL M' (snd (settle_now C r k)) (snd (settle_now C' r k')).
+  Proof.
+    intros T. unfold C'. rewrite settle_now_with_mask. split; [apply settle_now_fst|].
+    unfold settle_now. destruct (c_fix_moveout C); [|exact T]. destruct (pend r) as [[c p]|]; [|exact T].
+    apply (forget_tree_twin WATCHDOG_ALL M'). exact T.
+  Qed.
+
+  Lemma ksame_then_kwt a b c : ksame C a b -> kwt WATCHDOG_ALL M' b c -> kwt WATCHDOG_ALL M' a c.
+  Proof.
+    intros S T. destruct (ksame_watches C a b S) as [W [N1 N2]]. destruct S as [_ Am _ _]. rewrite HM in Am.
+    destruct T as [Tw Tm Tn Tc]. constructor; [rewrite Tw, W; reflexivity | exact Am | congruence | congruence].
+  Qed.
+
+  Lemma kwt_then_ksame a b c : kwt WATCHDOG_ALL M' a b -> ksame C' b c -> kwt WATCHDOG_ALL M' a c.
+  Proof.
+    intros T S. destruct (ksame_watches C' b c S) as [W [N1 N2]].
+    destruct T as [Tw Tm Tn Tc]. constructor; [rewrite W, Tw; reflexivity | exact Tm | congruence | congruence].
+  Qed.
+
+  (* NORMAL FORMS ARE TWINS AND STAY TWINS (up to settling): no guard needed *)
+  Theorem norm_twin t t' o rn knU knF rU1 kU1 rawsU :
+    pending_of C rn = false -> kwt WATCHDOG_ALL M' knU knF -> k_queue knU = [] -> k_queue knF = [] ->
+    read_batch C t' (rn, kdrained (kernel_op knU t o), []) (k_queue (kernel_op knU t o)) = Done (rU1, kU1, rawsU) ->
+    exists rF1 kF1,
+      read_batch C' t' (rn, kdrained (kernel_op knF t o), []) (k_queue (kernel_op knF t o)) = Done (rF1, kF1, filter kp rawsU) /\
+      fst (settle_now C rU1 kU1) = fst (settle_now C' rF1 kF1) /\
+      kwt WATCHDOG_ALL M' (snd (settle_now C rU1 kU1)) (snd (settle_now C' rF1 kF1)).
+  Proof.
+    intros Hidle T QU QF Hrd.
+    set (kU' := kernel_op knU t o) in *. set (kF' := kernel_op knF t o).
+    assert (Q0 : kq M' knU knF) by (unfold kq; rewrite QU, QF; reflexivity).
+    destruct (kernel_op_twin WATCHDOG_ALL M' (kmask_sub F rec) (kmask_nodir F rec) knU knF t o T Q0) as [T1 Q1].
+    fold kU' kF' in T1, Q1. unfold kq in Q1.
+    rewrite (kcollapse_keys _ (NoDup_key_filter kkey _ _ (kernel_op_nodup knU t o QU))) in Q1. fold kU' in Q1.
+    (* drop the records the filtered watch is not sent, in the unfiltered world *)
+    assert (Hsh : shapeP C (k_queue kU')).
+    { apply kernel_op_shape. intros x Hx. rewrite QU in Hx. destruct Hx. }
+    assert (KU : ksame C (kdrained kU') (kdrained kU')).
+    { apply ksame_intro; try reflexivity. intros w Hw. rewrite HM. apply (kwt_mask _ _ _ _ T1). exact Hw. }
+    assert (I0 : inv C (fun _ => false) (k_queue kU') rn (kdrained kU') rn (kdrained kU')).
+    { left. split; [reflexivity|]. split; [exact KU|]. split; [intros Hp; congruence | intros wd Hd; discriminate]. }
+    destruct (inert C (kkeep M') (fun e => kkeep M' (k_mask e)) (fun _ => false) (sim_kept F C Hvis) t' (k_queue kU')
+                    rn (kdrained kU') rn (kdrained kU') [] rU1 kU1 rawsU) as [r2 [k2 [Hr HE]]]; try assumption.
+    { intros e He Hs. cbn beta in Hs. right. split; [|exact Hs].
+      destruct (structural (c_recursive C) (k_mask e)) eqn:Es; [|reflexivity].
+      pose proof (structural_kept F C Hvis _ Es) as Hk. fold rec M' in Hk. rewrite Hk in Hs. discriminate. }
+    { intros e _ Hs. exact Hs. }
+    cbn [filter] in Hr.
+    pose proof (read_batch_twin C WATCHDOG_ALL M' HM t' (filter (fun e => kkeep M' (k_mask e)) (k_queue kU'))
+                  rn (kdrained kU') (kdrained kF') [] (kwt_drained _ _ _ _ T1)) as Tw.
+    rewrite Hr in Tw. fold C' in Tw. rewrite Q1.
+    destruct (read_batch C' t' (rn, kdrained kF', []) (filter (fun e => kkeep M' (k_mask e)) (k_queue kU')))
+      as [[[r3 k3] raws3]|]; [|contradiction].
+    destruct Tw as [H1 [H2 H3]]. cbn [fst snd] in *. subst r3 raws3.
+    exists r2, k3. split; [reflexivity|].
+    destruct HE as [E1 E2]. destruct (settle_now_twin r2 k2 k3 H3) as [S1 S2]. split.
+    - rewrite E1. exact S1.
+    - eapply ksame_then_kwt; eassumption.
+  Qed.
+End Two.
